@@ -51,6 +51,9 @@ type Case struct {
 	// Reacquire: the holder first acquires and releases the lock once with the same lock object, then acquires it again
 	// (the acquisition that is observed): a lock object is not a one-shot thing
 	Reacquire bool `json:"reacquire_with_same_object,omitempty"`
+	// LateStampMs (with Reacquire): the time stamp the heart-beat of the FIRST acquisition was about to set when the lock got
+	// released is held up by that much (a slow disk, a remote filesystem): whether it then lands in the second acquisition
+	LateStampMs int `json:"stamp_of_the_first_acquisition_held_up_ms,omitempty"`
 	// ObsStatFailsEvery: every n-th stat of the heart-beat file by an observer fails with a transient I/O error (what a
 	// network share does now and then): not being able to read the age of a sign of life is no evidence of death
 	ObsStatFailsEvery int `json:"observer_stat_fails_every,omitempty"`
@@ -262,7 +265,11 @@ func runCase(t ev.T, test string, c Case, confirmed bool) (suspectNoHeartBeat bo
 	box.Backend.After = w.after
 	var hbIssued atomic.Int64 // heart-beat writes the holder has at least begun (counted when issued, whatever the disk does next)
 	var lastIssued atomic.Int64 // when the latest of them was issued
+	var lateOnce atomic.Bool
 	box.Backend.Before = func(op *fsx.Op) {
+		if c.Reacquire && c.LateStampMs > 0 && op.Client == "holder" && op.Path == w.hbPath && op.Kind == "chtimes" && lateOnce.CompareAndSwap(false, true) {
+			time.Sleep(time.Duration(c.LateStampMs) * time.Millisecond)
+		}
 		if op.Client == "holder" && op.Path == w.hbPath && op.Kind == "openfile" {
 			hbIssued.Add(1)
 			lastIssued.Store(time.Now().UnixNano())
@@ -660,6 +667,12 @@ func genCase(t *rapid.T) Case {
 		c.SlowWriteMs = rapid.SampledFrom([]int{10, 35, 45}).Draw(t, "slow-write-ms")
 	}
 	c.Reacquire = rapid.IntRange(0, 3).Draw(t, "reacquire") == 0
+	if c.Reacquire && c.Periods >= 4 && rapid.IntRange(0, 2).Draw(t, "late-stamp") == 0 {
+		c.LateStampMs = rapid.SampledFrom([]int{30, 80, 130}).Draw(t, "late-stamp-ms")
+		if c.SlowWriteMs == 0 {
+			c.SlowWriteMs = 10 // the first acquisition is released 3 ms after it was obtained: its first heart-beat is then under way
+		}
+	}
 	c.OddNames = rapid.IntRange(0, 5).Draw(t, "odd-names") == 0
 	if rapid.IntRange(0, 5).Draw(t, "obs-id") == 0 {
 		c.ObserverID = rapid.SampledFrom([]string{" L", "L ", "L\n", "\tL", " L \n"}).Draw(t, "obs-id-spelling")
